@@ -7,6 +7,7 @@ import numpy as np
 
 from sdpcap.capture import SymProgram
 from sdpcap.task import SdpTask
+from props.common import Task
 from symnp.array import SymArray
 from symnp.core import cur, lift
 from symnp.harness import Builder, Obligation, eq
@@ -266,10 +267,62 @@ def returned_certificate_tasks(fn, name, tier):
                                                (lambda vs=vs, ps=ps, pd=pd: fn([np.array(v) for v in vs], list(ps), strategy="min_error", primal_dual=pd)), rhos, ps))
     return out
 
+class EarlierResultTask(Task):
+    """The measurement operators a call returned keep their values when the function is called again on another ensemble of the same
+    shape (round-6 seed: the program skeleton and its variables memoised per shape).  Real solver, concrete call history."""
+    engine = "concrete-history (real function and solver: call, call again on another ensemble, read the first result)"
+    weight = 10
+
+    def __init__(self, name, cfg, fn, ens_a, ens_b):
+        super().__init__(name, cfg)
+        self.fn, self.a, self.b = fn, ens_a, ens_b
+
+    def _go(self):
+        def vals(ms):
+            out = []
+            for m in ms:
+                v = getattr(m, "value", m)
+                out.append(np.array(v, dtype=complex) if not hasattr(v, "size") or True else v)
+            return out
+        va, ma = self.fn(*self.a)
+        before = [np.array(x, dtype=complex).copy() for x in vals(ma)]
+        self.fn(*self.b)
+        after = [np.array(x, dtype=complex) for x in vals(ma)]
+        return before, after
+
+    def _run(self, rec, seed):
+        try:
+            before, after = self._go()
+        except (ArithmeticError, ZeroDivisionError) as e:
+            rec["notes"].append(f"conic solver breakdown ({type(e).__name__})")
+            return
+        rec["reachable"] = True
+        if len(before) == len(after) and all(x.shape == y.shape and np.allclose(x, y, atol=1e-9) for x, y in zip(before, after)):
+            rec["status"] = "discharged"
+        else:
+            rec["status"] = "violation"
+            rec["violation"] = {"source": "operators returned by an earlier call changed when the function was called again (reproduced on the real function)",
+                                "inputs": self.cfg, "actual": [np.round(x, 6).tolist().__repr__() for x in after][:2], "expected": [np.round(x, 6).tolist().__repr__() for x in before][:2]}
+
+    def replay(self, rp):
+        before, after = self._go()
+        return all(np.allclose(x, y, atol=1e-9) for x, y in zip(before, after))
+
+
+def earlier_result_tasks(fn, name):
+    a = ([np.array([1, 0], dtype=complex), np.array([1, 1j]) / np.sqrt(2), np.array([1, np.exp(0.7j)]) / np.sqrt(2)], [0.5, 0.3, 0.2])
+    b = ([np.array([1, 0.5j]) / np.sqrt(1.25), np.array([0.6, 0.8], dtype=complex), np.array([1, -1j]) / np.sqrt(2)], [0.2, 0.3, 0.5])
+    out = []
+    for pd in ("primal", "dual"):
+        out.append(EarlierResultTask(name, {"strategy": "min_error", "primal_dual": pd, "ensembles": "two different ensembles of 3 complex qubit kets"},
+                                     (lambda vs, ps, pd=pd: fn([np.array(v) for v in vs], list(ps), strategy="min_error", primal_dual=pd)), a, b))
+    return out
+
 
 def obligations(tier):
     obs = []
     obs += returned_certificate_tasks(state_distinguishability, "state_distinguishability.returned_measurement_is_a_povm_attaining_the_returned_value", tier)
+    obs += earlier_result_tasks(state_distinguishability, "state_distinguishability.returned_measurement_is_unchanged_by_a_later_call")
     from props.c09 import DualityTask
     for name, vs, ps in instances(tier):
         obs.append(DualityTask("state_distinguishability.min_error_dual_is_lagrange_dual_of_primal", {"instance": name},
